@@ -960,11 +960,10 @@ static void handle_conn_error(ares_conn_t *conn, ares_bool_t critical_failure,
 /* Requeue query will normally call ares_send_query() but in some circumstances
  * this needs to be delayed, so if requeue is not NULL, it will add the query
  * to the queue instead */
-ares_status_t ares_requeue_query(ares_query_t *query, const ares_timeval_t *now,
-                                 ares_status_t            status,
-                                 ares_bool_t              inc_try_count,
-                                 const ares_dns_record_t *dnsrec,
-                                 ares_array_t           **requeue)
+static ares_status_t ares_requeue_query_int(
+  ares_query_t *query, const ares_timeval_t *now, ares_status_t status,
+  ares_bool_t inc_try_count, const ares_dns_record_t *dnsrec,
+  ares_array_t **requeue, ares_bool_t *resend)
 {
   ares_channel_t *channel   = query->channel;
   size_t          max_tries = ares_slist_len(channel->servers) * channel->tries;
@@ -985,6 +984,12 @@ ares_status_t ares_requeue_query(ares_query_t *query, const ares_timeval_t *now,
     if (requeue != NULL) {
       return ares_append_requeue(requeue, query, NULL);
     }
+    /* Called from ares_send_query() itself for an attempt that failed right
+     * away: it makes the next attempt from its loop. */
+    if (resend != NULL) {
+      *resend = ARES_TRUE;
+      return ARES_SUCCESS;
+    }
     return ares_send_query(NULL, query, now);
   }
 
@@ -998,6 +1003,16 @@ ares_status_t ares_requeue_query(ares_query_t *query, const ares_timeval_t *now,
    * "being probed" or it is never probed again. */
   end_query(channel, server, query, query->error_status, dnsrec);
   return ARES_ETIMEOUT;
+}
+
+ares_status_t ares_requeue_query(ares_query_t *query, const ares_timeval_t *now,
+                                 ares_status_t            status,
+                                 ares_bool_t              inc_try_count,
+                                 const ares_dns_record_t *dnsrec,
+                                 ares_array_t           **requeue)
+{
+  return ares_requeue_query_int(query, now, status, inc_try_count, dnsrec,
+                                requeue, NULL);
 }
 
 /*! Count the number of servers that share the same highest priority (lowest
@@ -1261,8 +1276,15 @@ static ares_status_t ares_conn_query_write(ares_conn_t          *conn,
   return ares_conn_flush(conn);
 }
 
-ares_status_t ares_send_query(ares_server_t *requested_server,
-                              ares_query_t *query, const ares_timeval_t *now)
+/* One attempt to put the query on the wire.  If it fails right away and the
+ * query has tries left, *resend is set and the caller makes the next attempt;
+ * *refused records that an attempt ended in a refused write, which decides
+ * the status reported once the tries are used up. */
+static ares_status_t ares_send_query_attempt(ares_server_t *requested_server,
+                                             ares_query_t  *query,
+                                             const ares_timeval_t *now,
+                                             ares_bool_t          *resend,
+                                             ares_bool_t          *refused)
 {
   ares_channel_t *channel = query->channel;
   ares_server_t  *server;
@@ -1310,7 +1332,8 @@ ares_status_t ares_send_query(ares_server_t *requested_server,
       case ARES_ECONNREFUSED:
       case ARES_EBADFAMILY:
         server_increment_failures(server, query->using_tcp);
-        return ares_requeue_query(query, now, status, ARES_TRUE, NULL, NULL);
+        return ares_requeue_query_int(query, now, status, ARES_TRUE, NULL,
+                                      NULL, resend);
 
       /* Anything else is not retryable, likely ENOMEM */
       default:
@@ -1348,16 +1371,14 @@ ares_status_t ares_send_query(ares_server_t *requested_server,
           return ARES_ECANCELLED;
         }
       }
-      status = ares_requeue_query(query, now, status, ARES_TRUE, NULL, NULL);
-      if (status == ARES_ETIMEOUT) {
-        status = ARES_ECONNREFUSED;
-      }
-      return status;
+      *refused = ARES_TRUE;
+      return ares_requeue_query_int(query, now, status, ARES_TRUE, NULL, NULL,
+                                    resend);
 
     default:
       server_increment_failures(server, query->using_tcp);
-      status = ares_requeue_query(query, now, status, ARES_TRUE, NULL, NULL);
-      return status;
+      return ares_requeue_query_int(query, now, status, ARES_TRUE, NULL, NULL,
+                                    resend);
   }
 
   /* The query is on the wire (or in the connection's output buffer) from here
@@ -1414,6 +1435,29 @@ ares_status_t ares_send_query(ares_server_t *requested_server,
   }
 
   return ARES_SUCCESS;
+}
+
+ares_status_t ares_send_query(ares_server_t *requested_server,
+                              ares_query_t *query, const ares_timeval_t *now)
+{
+  ares_status_t status;
+  ares_bool_t   resend;
+  ares_bool_t   refused = ARES_FALSE;
+
+  /* Attempts that fail right away (no socket, refused on write) follow each
+   * other in a loop rather than by recursion: how many there can be is a
+   * configuration value (tries x servers), the stack is not. */
+  do {
+    resend = ARES_FALSE;
+    status =
+      ares_send_query_attempt(requested_server, query, now, &resend, &refused);
+    requested_server = NULL;
+  } while (resend);
+
+  if (refused && status == ARES_ETIMEOUT) {
+    status = ARES_ECONNREFUSED;
+  }
+  return status;
 }
 
 static ares_bool_t same_questions(const ares_query_t      *query,
